@@ -76,6 +76,7 @@ PROPS = {
                   ("IM", 14, has("IM2", "IM3")), ("HE", 2, has("BddNode:scratch", "BddNode:fields")),
                   ("DT", 7, has("BddPtr", "BottomUpBuilder::or:", "BottomUpBuilder::compose:")),
                   ("FS", 2, has("or_lst", "and_lst")), ("ST", 2, None), ("GL", 1, has("GL6")), ("VO", 14, vo_sel("::bdd::", "var_order")),
+                  ("GL", 6, has("GL1", "GL2", "ite_helper:GL4", "GL5")),
                   ("SH", 5, has("RobddBuilder", "BottomUpBuilder<repr::bdd::BddPtr> for T>::var"))],
         "explanation": "Six structural clauses of BDD operation correctness. (e) the standard-triple normalisation Ite::new "
                        "preserves ite(f,g,h) on every path for every truth assignment (ST: exhaustive abstract interpretation over "
@@ -87,21 +88,22 @@ PROPS = {
                        "only new+alloc (IM2, IM3), node fields Freeze except the two private cells (HE); (c) derived operators "
                        "and/iff/xor/exists/negate/or/compose evaluate to their names' truth tables (DT); (d) list operations "
                        "are seeded with the neutral element (FS). Not decided: Shannon expansion, the standard-triple "
-                       "rewriting in Ite::new, order handling — most of the property.",
+                       "rewriting in Ite::new, order handling — most of the property. Added: the apply cache cannot change a result (Lru get/insert/grow keep key, value and hash together, the BDD ite cache uses one key and one hash: GL1, GL2, GL4, GL5); label numbering never decides an ordering question (VO label-order).",
     },
     "C03": {
         "level": "other",
         "rules": [("CP", 32, has("builder::sdd::", "repr::sdd::SddPtr")), ("DT", 7, has("SddPtr", "BottomUpBuilder::or:", "BottomUpBuilder::compose:")),
                   ("IM", 14, has("IM2", "IM3")), ("HE", 4, has("BinarySDD:scratch", "SddOr:scratch", "BinarySDD:fields", "SddOr:fields")),
                   ("ST", 2, None), ("SH", 1, has("SddPtr> for T>::condition")), ("SA", 12, None), ("VX", 9, None),
-                  ("VO", 1, vo_sel("::sdd::", only_label_order=True))],
+                  ("VO", 1, vo_sel("::sdd::", only_label_order=True)),
+                  ("GL", 6, has("GL1", "GL2", "SddPtr> for T>::ite:GL4", "SddPtr> for T>::and:GL4"))],
         "explanation": "Complement coherence of every place the SDD code touches subs/children of a possibly complemented node "
                        "(and_sub_desc, and_prime_desc, and_cartesian, condition, SddPtr::{low,high,neg,is_neg}): operands of "
                        "and/ite/..., elements of result nodes and traversal recursion denote the same thing for a regular and "
                        "a complemented pointer; primes are never sign-dependent (CP). Derived operators ite/iff/xor/exists/"
                        "negate/or/compose match their truth tables (DT); the standard-triple normalisation used by the SDD ite preserves "
                        "ite(f,g,h) (ST); a literal conditioned on its own variable is True iff polarity == value (SH). History immunity (IM, HE). Not decided: the vtree "
-                       "case analysis of and, cartesian-product shortcuts, conditioning's element recursion.",
+                       "case analysis of and, cartesian-product shortcuts, conditioning's element recursion. Added: no ordering comparison of variable labels in SDD code - vtree positions decide (VO label-order); every implementor's compose satisfies the documented definition with g allowed to mention the variable (DT on overrides); the SDD ite/and caches use one key and one hash and the Lru keeps key/value/hash together (GL1, GL2, GL4).",
     },
     "C06": {
         "level": "other",
@@ -117,7 +119,7 @@ PROPS = {
                        "initially unsatisfiable CNF map to the false constant (DP); one residual-hash key for cache lookup and "
                        "insert, taken before the level's decisions (GL4); no public function leaves scratch set (SP1). Not "
                        "decided: soundness of component caching by residual hash, that models are exactly the CNF's, "
-                       "path-wise decomposability.",
+                       "path-wise decomposability. Added: each branch conjoins all of difference_iter except the decided variable (TD); the solver constructor treats an empty clause as a conflict, a unit clause as one queued literal and a longer clause as two watches (EC); no label-order comparison in the top-down builder (VO label-order).",
     },
     "C07": {
         "level": "other",
@@ -128,7 +130,7 @@ PROPS = {
                        "evaluate encodes an assignment as (low=!b, high=b) (DP); the folds hand effective children to the "
                        "callback/recursion (CP on BddPtr::fold, bdd_fold_h, SddPtr::fold); the dual-polarity memo is written and "
                        "read in the slot of the pointer's own polarity (MS); accumulators are seeded with the semiring "
-                       "identities (FS). Not decided: the numeric identity itself, order/vtree independence.",
+                       "identities (FS). Not decided: the numeric identity itself, order/vtree independence. Added: WmcParams.var_to_val, a table indexed by label, is only grown by push and updated through index_mut (LT).",
     },
     "C08": {
         "level": "other",
@@ -148,7 +150,7 @@ PROPS = {
                        "graph); what a BDD traversal descends below is marked, so the short-circuiting clear is complete "
                        "(SP2); memo read/write types agree (SP3). Trusted: unwinding ignored (a panicking user callback leaves "
                        "scratch set). Not decided: which answer is returned.",
-        "assumptions": ["panics/unwinding are not modelled", "call-graph resolution by rustc Instance::try_resolve; generic trait calls dispatch to all local impls"],
+        "assumptions": ["panics/unwinding are not modelled Added: should an SDD clear_scratch start to short-circuit on its own slot, every SDD traversal must mark each node it descends from (SP2 extended; today the SDD clear descends unconditionally).", "call-graph resolution by rustc Instance::try_resolve; generic trait calls dispatch to all local impls"],
     },
     "C11": {
         "level": "other",
@@ -159,13 +161,13 @@ PROPS = {
                        "found under the negated hash is returned complemented, in both semantic builders (CP-hash); the per-node "
                        "hash cache has one writer (IM5); field arithmetic stays in range for every exported prime (NB); hash "
                        "maps are sized by variable counts (IC). Not decided: that the hash is determined by the function "
-                       "(an algebraic identity over a random point), collision freedom, correctness of the semantic builders.",
+                       "(an algebraic identity over a random point), collision freedom, correctness of the semantic builders. Added: a hash hit is returned exactly as found and the semantic SDD builder decides equality by hashes on every path (SE1, SE2).",
     },
     "C02": {
         "level": "other",
         "rules": [("GL", 2, has("GL3")), ("TS", 3, has("TS-OCC")), ("HE", 4, has(*BDD_T)),
                   ("RN", 4, has("RN1", "RN2")), ("IM", 37, has("IM3", "IM4", "IM2")), ("RH", 14, None),
-                  ("VO", 14, vo_sel("::bdd::", "var_order"))],
+                  ("VO", 14, vo_sel("::bdd::", "var_order")), ("ST", 2, None)],
         "explanation": "Structural necessary conditions of ROBDD canonicity: the unique table returns a stored node only "
                        "for an equal request (hash equal AND (by-hash OR structural equality), GL3) and must be able to "
                        "find every stored node (only occupied elements are re-inserted, re-homed with probe length 0, "
@@ -173,7 +175,7 @@ PROPS = {
                        "logical operations reduce (low == high returns the child) and normalise the high edge before "
                        "interning (RN1, RN2); nodes enter only through the table and pointer variants are built only from "
                        "table results or existing nodes (IM3, IM4). Not decided: the iff between pointer and function "
-                       "equality in general, order-respect on every path, robin-hood probe-length arithmetic.",
+                       "equality in general, order-respect on every path, robin-hood probe-length arithmetic. Added: the standard-triple normalisation denotes ite(f,g,h) on all 8-valuation paths (ST) - a wrong triple makes results of one function differ; BddNode's Ord pairs the structural fields (HE ord-fields).",
     },
     "C04": {
         "level": "other",
@@ -183,7 +185,7 @@ PROPS = {
                        "sign-normalise, intern: RN3), Hash/Eq agreement of BinarySDD/SddOr/SddAnd and identity Hash/Eq of "
                        "SddPtr (HE), the shared unique-table rules (GL3, TS-OCC), nodes enter only through the tables (IM4). "
                        "Not decided: that primes form a partition, stay on their vtree side, that no smaller equivalent "
-                       "exists — semantic facts about run-time element lists.",
+                       "exists — semantic facts about run-time element lists. Added: the hand-written Ord of BinarySDD/SddOr/SddAnd (the sort key of unique_or) pairs self.F with other.F for exactly the structural fields (HE ord-fields); only canonicalize implementations and and_indep may call unique_or, which neither trims nor compresses (RN3 unique_or-caller).",
     },
     "C05": {
         "level": "other",
@@ -208,7 +210,7 @@ PROPS = {
                        "literal use one side (WP); SATSolver::decide pushes exactly one state on non-UNSAT paths and none on "
                        "UNSAT, pop pops one, new leaves two (TS-STK) — the structural half of 'pop restores the previous "
                        "state'. Not decided: soundness and fixpoint of propagation in general, the satisfied flag, hash "
-                       "injectivity.",
+                       "injectivity. Added: index spaces of the watch scheme - label / clause index / position in a watch list - are respected at all 32 uses (WS); the tautology filter ranges over all pairs because Literal's packed order is polarity-major (TF); clause-length cases of the constructor (EC); the PartialModel queries agree with the two-set definition (PM); watch tables keep their label indexing (LT).",
     },
     "C13": {
         "level": "other",
@@ -225,7 +227,7 @@ PROPS = {
                   ("LT", 2, has("VarOrder", "VTreeManager"))],
         "explanation": "Dimension analysis (Index / Count / OneBased): every function called num_vars returns a count, every "
                        "num_vars field is initialised with a count, label-indexed table sizes are counts (IC). Not decided: "
-                       "permutation-ness of heuristic orders, dtree cutsets, LCA / in-order index arithmetic.",
+                       "permutation-ness of heuristic orders, dtree cutsets, LCA / in-order index arithmetic. Added: FORCE re-positions every variable in every round (no element-dropping adaptor in the pipeline: VO force_order); var_to_pos and vtree_index keep their label indexing (LT).",
     },
     "C15": {
         "level": "other",
@@ -237,7 +239,7 @@ PROPS = {
                        "Cnf's variable count is max label + 1 (IC); the residual hasher's pos/neg tables are selected and "
                        "indexed by the same literal (WP); counting accumulators are seeded with zero/one (FS). Not decided: "
                        "agreement of eval / condition / is_sat_partial / the hasher's 'only then' direction with their "
-                       "definitions.",
+                       "definitions. Added: PartialModel set/unset/get/is_set/lit_implied/lit_neg_implied and its constructors/iterators follow the two-set definition (PM, abstract interpretation over membership pairs); CnfHasher::hash skips a satisfied clause entirely, skips a falsified literal, multiplies an unassigned literal's prime and accumulates every clause product (HS); pos_lits/neg_lits keep their label indexing (LT).",
     },
     "C16": {
         "level": "proof",
